@@ -114,8 +114,10 @@ def mk_world(c, shape, ordered, with_enum=True):
         for i in range(nh):
             rs.add_constraint(StmtStub("h%d_%d" % (si, i)))
         for i in range(ns):
-            k += 1
-            rs.add_constraint(StmtStub("s%d_%d" % (si, i), priority=k))
+            # priorities are NOT monotone in list position (rand-set merging appends the absorbed set's soft statements
+            # behind the survivor's): the solve order must follow the priority, not the position in the list
+            rs.add_constraint(StmtStub("s%d_%d" % (si, i), priority=k + {1: [1], 2: [2, 1], 3: [2, 3, 1]}[ns][i]))
+        k += ns
         if ordered and nf >= 2:
             rs.rand_order_l = [[rs.field_rand_l[0]], rs.field_rand_l[1:]]
         sets.append(rs)
@@ -316,6 +318,14 @@ def c_protocol(c, shape, debug, ordered, sfd=0):
         ew = [v for (f, used, v, old) in writes if f is ue]
         c.check("an unconstrained field with a multi-range (enumerator) domain is drawn from that domain",
                 And(len(ew) == 1, *([Or(lift(ew[0]) == 1, lift(ew[0]) == 5, lift(ew[0]) == 7)] if ew else [])))
+    # ---- C03/C16: "random in this call" is per-call state
+    # (after SolveFailure the un-marking is do_randomize's job: contract randomizer.do_randomize.order)
+    c.check("C03: after a completed solve no field that was solved or drawn is still marked used-random (a later call that merely "
+            "references it must treat it as a constant)",
+            exc is not None or (not uf.is_used_rand and (ue is None or not ue.is_used_rand)
+                                and all(not f.is_used_rand for rs in sets for f in rs.all_fields())),
+            info=repr([(f.name, f.is_used_rand) for f in [uf] + ([ue] if ue is not None else []) +
+                       [f for rs in sets for f in rs.all_fields()] if f.is_used_rand]))
     # ---- C09: draw routing
     c.check("no use of the global random module inside the solve path", trip == [], info=repr(trip))
     c.ghost["draws"] = [(lo if not isinstance(lo, SymInt) else "sym", hi if not isinstance(hi, SymInt) else "sym")
